@@ -410,7 +410,11 @@ class UniversalPrecondition(Precondition):
         :param decimal_digits: the number of decimal digits to print.
         :return: the PDDL string of the quantified condition.
         """
-        if len(self.operands) == 0:
+        if (
+            len(self.operands) == 0
+            and len(self.equality_preconditions) == 0
+            and len(self.inequality_preconditions) == 0
+        ):
             return ""
 
         internal_condition_string = super()._print_self(should_simplify, decimal_digits)
